@@ -98,7 +98,7 @@ def linbasex_transform(IM, basis_dir=None, proj_angles=[0, np.pi/2],
                                legendre_orders=legendre_orders,
                                radial_step=radial_step, smoothing=smoothing,
                                threshold=threshold, clip=clip,
-                               norm_range=norm_range,
+                               norm_range=norm_range, direction=direction,
                                verbose=verbose)
 
     # unpack upper right quadrant
@@ -202,6 +202,9 @@ def linbasex_transform_full(IM, basis_dir=None, proj_angles=[0, np.pi/2],
     projections : numpy 2D array
         projection profiles at angles **proj_angles**
     """
+
+    if direction != 'inverse':
+        raise ValueError('Forward "linbasex" transform not implemented')
 
     IM = np.atleast_2d(IM)
 
